@@ -377,9 +377,9 @@ class AssignmentExpression(BinaryExpression):
         super().__init__(operation, left, right)
 
     def ResolveType(self, left, right):
+        # The assigned value is converted to the type of the target
         self._operator = types.ExpressionType(
-            self.GetLeft().GetType(),
-            [self.GetLeft().GetType(), self.GetRight().GetType()],
+            left, [left, types.ResolveAssignmentType(left, right)]
         )
 
 
@@ -569,6 +569,9 @@ class VariableDeclaration(Node):
     def GetInitializerExpression(self):
         return self.__initializer
 
+    def SetInitializerExpression(self, initExpression):
+        self.__initializer = initExpression
+
 
 class ArgumentModifier(Enum):
     Optional = 1
@@ -727,6 +730,9 @@ class ReturnStatement(FlowStatement):
 
     def GetExpression(self):
         return self.__expression
+
+    def SetExpression(self, expression):
+        self.__expression = expression
 
     def __str__(self):
         if self.__expression:
